@@ -24,7 +24,9 @@ PLANS['C01'] = {
     'floor': {'quick': 3000, 'thorough': 100000},
     'assumptions': ['generator reach (see coverage.observed)', 'oracle in harness/src/expect.rs + dbwalk.rs (independent walk of rbx_reflection types)',
                     'rotation bases derived from docs/binary.md table (harness/src/rot.rs)'],
-    'run': _rt('c01', 4000, 400000),
+    'run': lambda m, tier, seed, rundir, extra: (_rt('c01', 4000, 400000)(m, tier, seed, rundir, extra),
+                                                 [core.valgrind_leg(m, 'C01', ['c01', '--seed', seed + k, '--count', 60, '--shard', k, '--nshards', 8], rundir, f'c01-{k}') for k in range(8)]
+                                                 if tier == 'thorough' else None),
     'claim': ('held on N generated DOMs x 3 compression modes: every decoded dump equalled the dump the statement predicts from the abstract input '
               '(forest, order, names, canonical property names, bit-exact values, ref topology, the four permitted normalisations and nothing else). '
               'Exploration, not proof: reach is what the generators produce (per-type counts in the evidence).'),
@@ -156,6 +158,10 @@ def _domops(pid):
             m.add_results(res, f'domops exhaustive init={init} steps={steps} rich={rich}')
             m.extra.setdefault('exhaustive_scopes', []).append({'dom_count': 2, 'initial_inserts': int(init), 'further_operations': int(steps),
                                                                'ref_properties': rich == '1', 'unique_id_pool': 1})
+        if tier == 'thorough':
+            core.miri_leg(m, pid, 'dom', [seed, seed + 1])
+            if pid == 'C12':
+                core.miri_leg(m, pid, 'sstr', list(range(seed, seed + 16)))
         if pid == 'C12':
             import sys
             sys.path.insert(0, os.path.join(core.VERIF, 'lib'))
@@ -222,6 +228,9 @@ def _c18(m, tier, seed, rundir, extra):
     ops = 2000000 if tier == 'quick' else 40000000
     res = core.run_sharded('sstr', ['--mode', 'stress', '--ops', ops, '--threads', 16, '--seed', seed], 1 if tier == 'quick' else 4, os.path.join(rundir, 'stress'))
     m.add_results(res, 'sstr stress')
+    if tier == 'thorough':
+        # Miri: data races and the Arc/Weak protocol under weak-memory emulation; each seed is another schedule
+        core.miri_leg(m, 'C18', 'sstr', list(range(seed, seed + 48)))
 
 
 PLANS['C18'] = {
@@ -252,6 +261,8 @@ def _c17(m, tier, seed, rundir, extra):
     for n in m.notes:
         if n.startswith('INCONCLUSIVE'):
             m.inconclusive.append(n)
+    if tier == 'thorough':
+        core.miri_leg(m, 'C17', 'serde', [seed, seed + 1, seed + 2])
 
 
 PLANS['C17'] = {
@@ -289,6 +300,8 @@ def _c14(m, tier, seed, rundir, extra):
     with cf.ThreadPoolExecutor(max_workers=core.NCPU) as ex:
         futs = [ex.submit(core.run_vh, ['c14read', '--in', os.path.join(rundir, f'foreign-{i}.jsonl')], os.path.join(rundir, f'c14read-{i}.json')) for i in range(SH)]
         m.add_results([f.result() for f in futs], 'c14read')
+    if tier == 'thorough':
+        core.miri_leg(m, 'C14', 'attr', list(range(seed, seed + 8)))
     for i in range(SH):
         for f in (f'attrs-{i}.jsonl', f'foreign-{i}.jsonl'):
             p = os.path.join(rundir, f)
@@ -328,6 +341,15 @@ def _c13(m, tier, seed, rundir, extra):
         m.add_results(core.run_sharded('c13', ['--mode', 'truncate', '--seed', seed, '--files', 32 if tier == 'quick' else 480] + wargs, SH, os.path.join(sub, 'truncate'), timeout=7200), f'c13 truncate {pname}')
         m.add_results(core.run_sharded('c13', ['--mode', 'sink', '--seed', seed, '--files', 16 if tier == 'quick' else 160] + wargs, SH, os.path.join(sub, 'sink'), timeout=7200), f'c13 sink {pname}')
         m.add_results(core.run_sharded('c13', ['--mode', 'corpus', '--in', corpus] + wargs, 4, os.path.join(sub, 'corpus')), f'c13 corpus {pname}')
+    if tier == 'thorough':
+        # memcheck over the decoders incl. the vendored lz4 / zstd C code fed hostile lengths
+        import concurrent.futures as cf
+        with cf.ThreadPoolExecutor(max_workers=8) as ex:
+            for k in range(8):
+                ex.submit(core.valgrind_leg, m, 'C13', ['c13', '--mode', 'mutate', '--seed', seed + 100 + k, '--count', 400, '--shard', k, '--nshards', 8, '--timeout', 300],
+                          os.path.join(rundir, 'valgrind'), f'mutate-{k}', {'VH_WORKER_PREFIX': 'valgrind -q --error-exitcode=99'}, False)
+            ex.submit(core.valgrind_leg, m, 'C13', ['c13', '--mode', 'corpus', '--in', corpus, '--timeout', 300], os.path.join(rundir, 'valgrind'), 'corpus',
+                      {'VH_WORKER_PREFIX': 'valgrind -q --error-exitcode=99'}, False)
     m.extra['build_profiles'] = [p for p, _ in profiles]
     m.extra['exhaustive_parts'] = 'truncation at EVERY byte offset of each base file; sink failure at EVERY output offset (error, zero-length write) and every 16th offset (interrupted+short writes)'
 
